@@ -1,6 +1,7 @@
 import Marwood.Lemmas.Digits
 import Marwood.Lemmas.Parse
 import Marwood.Lemmas.RadixLex
+import Marwood.Lemmas.ExpLex
 /-!
 # C16 — number->string and string->number are mutually inverse
 
@@ -551,5 +552,229 @@ theorem toy2_shape (f : F64) : NumberShape (numberToString toyFloats2 10 (.flo f
   · exact natDigits10_subsequent _ x hx
 
 example := literal_float toyFloats2 toy2_floatText ⟨0x3FE0000000000000⟩ (by decide) (toy2_shape _)
+
+/-! ## T16.3, unprefixed decimal literals with a signed exponent (fix c1c04ca)
+
+`string->number` accepts `1e-7`, `2.5E+3`, `.5e-1`; as program text the pinned scanner ended the number
+token at the sign (`1e-7` was the *symbol* `1e-7`, an unbound variable; `.5e-1` was the two data `.5e`
+and `-1`). Marwood's printer never produces such a spelling (it prints `0.0000001`), so the printed-form
+streams could not see it. Since the fix the sign directly after the exponent marker of a decimal mantissa
+belongs to the token: -/
+
+/-- digits with at most one dot and at least one digit -/
+def decBody (b : Text) : Bool :=
+  b.all (fun x => isAsciiDigit x || x == '.') && decide (b.count '.' ≤ 1) && b.any isAsciiDigit
+
+/-- a decimal mantissa: an optional sign, then `decBody` (`1`, `2.5`, `.5`, `1.`, `-2.5`, `+.5`) -/
+def decMantissa : Text → Bool
+  | [] => false
+  | c :: b => if c == '+' || c == '-' then decBody b else decBody (c :: b)
+
+theorem decBody_chars {b : Text} (h : decBody b = true) : ∀ x ∈ b, isAsciiDigit x = true ∨ x = '.' := by
+  intro x hx
+  simp only [decBody, Bool.and_eq_true, List.all_eq_true, Bool.or_eq_true, beq_iff_eq] at h
+  exact h.1.1 x hx
+
+theorem decBody_count {b : Text} (h : decBody b = true) : b.count '.' ≤ 1 := by
+  simp only [decBody, Bool.and_eq_true, decide_eq_true_eq] at h
+  exact h.1.2
+
+theorem decBody_digit {b : Text} (h : decBody b = true) : b.any isAsciiDigit = true := by
+  simp only [decBody, Bool.and_eq_true] at h
+  exact h.2
+
+/-- for every decimal mantissa `m` (digits with at most one dot, at least one digit, optional leading sign),
+exponent marker `e`/`E`, sign and digit string `d`, the text `m ++ [e, sign] ++ d`, followed by anything
+that ends a number token (`Stop`: the end of the text, whitespace, a bracket, a quote, `;` …), is scanned
+as exactly one token of type `Number` spelled exactly that text. (`d` may even be empty as far as the
+scanner is concerned: `1e-` is a `Number` token too, which the parser turns into a symbol because
+`Number::parse` rejects it.) -/
+theorem signed_exponent_is_number_token (m d rest : Text) (e s : Char)
+    (hm : decMantissa m = true) (he : e = 'e' ∨ e = 'E') (hs : s = '+' ∨ s = '-')
+    (hd : ∀ x ∈ d, isAsciiDigit x = true) (hst : Stop rest) :
+    ScansAs (m ++ e :: s :: d) .number rest := by
+  cases m with
+  | nil => cases hm
+  | cons c b =>
+    refine ⟨c, b ++ e :: s :: d, rfl, ?_⟩
+    have hassoc : (b ++ e :: s :: d) ++ rest = b ++ e :: s :: (d ++ rest) := by simp
+    rw [hassoc]
+    simp only [decMantissa] at hm
+    -- the `scan_number` arm: first character a sign or a digit
+    have viaNumber : ∀ (hc : NumStart c) (hb : ∀ x ∈ b, isAsciiDigit x = true ∨ x = '.')
+        (hdg : (isAsciiDigit c || b.any isAsciiDigit) = true),
+        scanPiece c (b ++ e :: s :: (d ++ rest)) = .tok (c :: (b ++ e :: s :: d)) .number rest := by
+      intro hc hb hdg
+      obtain ⟨h1, h2, h3, h4, h5, h6, h7, h8, h9, h10⟩ := hc
+      simp only [scanPiece, h1, h2, h3, h4, h5, h6, h7, h8, beq_iff_eq, Bool.false_eq_true, if_false]
+      simp only [scanOther, h9, h10, Bool.false_eq_true, if_false, if_true]
+      rw [numberTail_signedExp b d rest e s _ false hb hdg he hs hd hst]
+      rfl
+    by_cases hsg : (c == '+' || c == '-') = true
+    · simp only [hsg, if_true] at hm
+      have hc : NumStart c := by
+        simp only [Bool.or_eq_true, beq_iff_eq] at hsg
+        rcases hsg with rfl | rfl <;> decide
+      exact viaNumber hc (decBody_chars hm) (by simp [decBody_digit hm])
+    · simp only [hsg] at hm
+      have hcb := decBody_chars hm
+      rcases hcb c (by simp) with hdig | hdot
+      · exact viaNumber (digit_numStart hdig) (fun x hx => hcb x (by simp [hx])) (by simp [hdig])
+      · -- the `scan_dot` arm: `.` then at least one digit, no further dot
+        subst hdot
+        have hcount := decBody_count hm
+        have hany := decBody_digit hm
+        have hnodot : ∀ x ∈ b, x ≠ '.' := by
+          intro x hx hxe
+          subst hxe
+          have : 0 < b.count '.' := List.count_pos_iff.mpr hx
+          simp only [List.count_cons_self] at hcount
+          omega
+        have hbd : ∀ x ∈ b, isAsciiDigit x = true := by
+          intro x hx
+          rcases hcb x (by simp [hx]) with h | h
+          · exact h
+          · exact absurd h (hnodot x hx)
+        have hne : b ≠ [] := by
+          rintro rfl
+          simp at hany
+          exact absurd hany (by decide)
+        obtain ⟨x, b', rfl⟩ := List.exists_cons_of_ne_nil hne
+        have hx1 : isSubsequentNumber x = true := (digit_facts (hbd x (by simp))).1
+        have h1 : isOpenChar '.' = false := by decide
+        have h2 : isCloseChar '.' = false := by decide
+        simp only [scanPiece, h1, h2, Bool.false_eq_true, if_false]
+        simp only [show ('.' : Char) ≠ '\'' by decide, show ('.' : Char) ≠ '`' by decide,
+          show ('.' : Char) ≠ ',' by decide, show ('.' : Char) ≠ '#' by decide, beq_iff_eq, if_false, if_true]
+        simp only [scanDot, List.cons_append, hx1, if_true]
+        have := dotNumberTail_signedExp (x :: b') d rest e s false false hbd (by simp) he hs hd hst
+        simp only [List.cons_append] at this
+        simp only [this]
+        rfl
+
+/-- … hence one token spanning it, wherever it stands in a text (`pos` = byte offset of its first
+character, `ts` = the tokens of what follows) -/
+theorem signed_exponent_in_context (m d rest : Text) (e s : Char) (pos : Nat) (ts : List Token)
+    (hm : decMantissa m = true) (he : e = 'e' ∨ e = 'E') (hs : s = '+' ∨ s = '-')
+    (hd : ∀ x ∈ d, isAsciiDigit x = true) (hst : Stop rest)
+    (hrest : ScanTo (pos + byteLen (m ++ e :: s :: d)) rest ts) :
+    ScanTo pos ((m ++ e :: s :: d) ++ rest)
+      (⟨pos, pos + byteLen (m ++ e :: s :: d), .number⟩ :: ts) :=
+  ScanTo.tok (signed_exponent_is_number_token m d rest e s hm he hs hd hst) hrest
+
+/-- … and alone it is the whole token list of the text -/
+theorem signed_exponent_scan (m d : Text) (e s : Char)
+    (hm : decMantissa m = true) (he : e = 'e' ∨ e = 'E') (hs : s = '+' ∨ s = '-')
+    (hd : ∀ x ∈ d, isAsciiDigit x = true) :
+    scan (m ++ e :: s :: d) = .ok [⟨0, byteLen (m ++ e :: s :: d), .number⟩] := by
+  have h := signed_exponent_in_context m d [] e s 0 [] hm he hs hd trivial (ScanTo.nil _)
+  simp only [List.append_nil, Nat.zero_add] at h
+  exact scan_of_scanTo h
+
+/-- the last clause of C16 for this family, from the text down: the unprefixed source literal
+`m ++ [e, sign] ++ d` denotes exactly what `(string->number "<the same spelling>")` gives — the number
+`parse_with_exactness` makes of it in radix 10; where `string->number` answers `#f` (`1e-`, or a float parser
+that rejects the spelling) the reader falls back to the symbol, as for every `Number` token -/
+theorem signed_exponent_literal_denotes (fo : FloatOps) (m d : Text) (e s : Char)
+    (hm : decMantissa m = true) (he : e = 'e' ∨ e = 'E') (hs : s = '+' ∨ s = '-')
+    (hd : ∀ x ∈ d, isAsciiDigit x = true) :
+    (parseText fo (m ++ e :: s :: d) =
+        match parseWithExactness fo (m ++ e :: s :: d) .unspecified 10 with
+        | .ok n => .ok (.num n, none)
+        | .err () => .ok (.sym (m ++ e :: s :: d), none)
+        | .panic msg => .panic msg) ∧
+    (stringToNumberProc fo [.str (m ++ e :: s :: d)] =
+        match parseWithExactness fo (m ++ e :: s :: d) .unspecified 10 with
+        | .ok n => .ok (.num n)
+        | .err () => .ok (.bool false)
+        | .panic msg => .panic msg) := by
+  generalize hsp : m ++ e :: s :: d = sp
+  have hscan : scan sp = .ok [⟨0, byteLen sp, .number⟩] := by
+    rw [← hsp]; exact signed_exponent_scan m d e s hm he hs hd
+  have hspan : tokSpan sp ⟨0, byteLen sp, .number⟩ = .ok sp := by
+    have := tokSpan_at [] sp [] .number
+    simpa using this
+  constructor
+  · have hp : parseTokens fo sp [⟨0, byteLen sp, .number⟩] =
+        match parseWithExactness fo sp .unspecified 10 with
+        | .ok n => .ok (.num n, [])
+        | .err () => .ok (.sym sp, [])
+        | .panic msg => .panic msg := by
+      have : parseF fo sp 1 [⟨0, byteLen sp, .number⟩] = some (match parseWithExactness fo sp .unspecified 10 with
+          | .ok n => .ok (.num n, [])
+          | .err () => .ok (.sym sp, [])
+          | .panic msg => .panic msg) := by
+        rw [parseF]
+        simp only [show tokKind TokType.number = .atom from rfl]
+        congr 1
+        unfold parseAtom
+        simp only []
+        rw [parseNumberTok]
+        simp only [show ¬ (TokType.number = TokType.numberPrefix) by decide, if_false]
+        unfold numberFinal
+        simp only [hspan, true_or, if_true]
+        cases parseWithExactness fo sp .unspecified 10 with
+        | ok n => rfl
+        | err e => cases e; rfl
+        | panic msg => rfl
+      exact parseTokens_of_fuel fo sp this
+    unfold parseText
+    rw [hscan]
+    simp only [hp]
+    cases parseWithExactness fo sp .unspecified 10 with
+    | ok n => rfl
+    | err e => cases e; rfl
+    | panic msg => rfl
+  · unfold stringToNumberProc
+    simp only [show ¬ ((10 : Nat) < 2 ∨ 36 < 10) by omega, if_false]
+    cases parseWithExactness fo sp .unspecified 10 with
+    | ok n => rfl
+    | err e => cases e; rfl
+    | panic msg => rfl
+
+/-- the pinned scanner (before fix c1c04ca; `scanNumberPinned` / `numberTailPinned` are the former model): the same
+text, its first character a sign or digit, was one token of type `Symbol` — the sign is a subsequent-identifier
+character, not a subsequent-number character -/
+theorem signed_exponent_was_symbol (c : Char) (b d rest : Text) (e s : Char)
+    (hb : ∀ x ∈ b, isAsciiDigit x = true ∨ x = '.') (he : e = 'e' ∨ e = 'E') (hs : s = '+' ∨ s = '-')
+    (hd : ∀ x ∈ d, isAsciiDigit x = true) (hrest : Delim rest) :
+    scanNumberPinned c ((b ++ e :: s :: d) ++ rest) = .tok (c :: (b ++ e :: s :: d)) .symbol rest := by
+  have hs1 : isSubsequentNumber s = false := by rcases hs with rfl | rfl <;> decide
+  have hs2 : contChar s = true := by rcases hs with rfl | rfl <;> decide
+  have hall : ∀ x ∈ b ++ e :: s :: d, contChar x = true := by
+    intro x hx
+    simp only [List.mem_append, List.mem_cons] at hx
+    rcases hx with hx | rfl | rfl | hx
+    · rcases hb x hx with h | rfl
+      · simp [contChar, (digit_facts h).1]
+      · decide
+    · rcases he with rfl | rfl <;> decide
+    · exact hs2
+    · simp [contChar, (digit_facts (hd x hx)).1]
+  have hany : (b ++ e :: s :: d).any (fun x => !isSubsequentNumber x) = true := by
+    simp [hs1]
+  simp only [scanNumberPinned, numberTailPinned_cont _ rest hall hrest, hany, if_true]
+
+/-- … and the leading-dot form was split in two data: `.5e` and `-1` -/
+theorem leading_dot_exponent_was_two_tokens :
+    scanDotPinned '.' "5e-1".toList = .tok ".5e".toList .number "-1".toList ∧
+    scanDot '.' "5e-1".toList = .tok ".5e-1".toList .number [] := ⟨rfl, rfl⟩
+
+example : scan "1e-7".toList = .ok [⟨0, 4, .number⟩] :=
+  signed_exponent_scan "1".toList "7".toList 'e' '-' (by decide) (.inl rfl) (.inr rfl) (by decide)
+example : scan ".5e-1".toList = .ok [⟨0, 5, .number⟩] :=
+  signed_exponent_scan ".5".toList "1".toList 'e' '-' (by decide) (.inl rfl) (.inr rfl) (by decide)
+example : scan "-2.5E+3".toList = .ok [⟨0, 7, .number⟩] :=
+  signed_exponent_scan "-2.5".toList "3".toList 'E' '+' (by decide) (.inr rfl) (.inl rfl) (by decide)
+example : scan "(f 1e-7 'x)".toList = .ok [⟨0, 1, .leftParen⟩, ⟨1, 2, .symbol⟩, ⟨3, 7, .number⟩,
+    ⟨8, 9, .singleQuote⟩, ⟨9, 10, .symbol⟩, ⟨10, 11, .rightParen⟩] := by decide
+example : scanNumberPinned '1' "e-7".toList = .tok "1e-7".toList .symbol [] :=
+  signed_exponent_was_symbol '1' [] "7".toList [] 'e' '-' (by simp) (.inl rfl) (.inr rfl) (by decide) trivial
+example : scanNumberPinned '-' "2.5E+3 x".toList = .tok "-2.5E+3".toList .symbol " x".toList :=
+  signed_exponent_was_symbol '-' "2.5".toList "3".toList " x".toList 'E' '+' (by decide) (.inr rfl) (.inl rfl)
+    (by decide) (.inl rfl)
+/-- near misses keep their type: the sign must follow the marker of a *decimal mantissa* directly -/
+example : scan "1e--7 1ee-7 1e-7x 1/2e-3 +e-1".toList = .ok [⟨0, 5, .symbol⟩, ⟨6, 11, .symbol⟩, ⟨12, 17, .symbol⟩,
+    ⟨18, 24, .symbol⟩, ⟨25, 29, .symbol⟩] := by decide
 
 end Marwood.Proofs.C16
